@@ -50,8 +50,9 @@ def plans(draw):
     n = draw(st.integers(1, 3))
     boxes = []
     for _ in range(n):
-        lb = draw(st.sampled_from([0.0, -5.0, 1e3, -1e6, 2.5]))
-        boxes.append([lb, lb + draw(st.sampled_from([1.0, 10.0, 1e-3, 1e6]))])
+        # (some boxes do not sit on any coarse grid: a replacement rounded to somebody else's precision leaves them)
+        lb = draw(st.sampled_from([0.0, -5.0, 1e3, -1e6, 2.5, 0.3, -0.77, 1.0 / 3.0]))
+        boxes.append([lb, lb + draw(st.sampled_from([1.0, 10.0, 1e-3, 1e6, 0.2, 0.37]))])
     b = draw(st.integers(1, 5))
     designs = []
     for _ in range(b):
@@ -67,7 +68,17 @@ def plans(draw):
                     d["k"], d["types"] = 4, d["types"][:4]
                 seen5 = True
     prec = [draw(st.sampled_from([None, None, 0.25, 0.1, 1e-3])) for _ in range(n)]
-    return {"boxes": boxes, "prec": prec, "designs": designs, "mode": mode, "workers": draw(st.integers(2, 3)),
+    # heterogeneous declarations: some parameters are integers (integer bounds), the others say nothing about a type
+    ptype = []
+    for j in range(n):
+        if draw(st.integers(0, 3)) == 0:
+            lo = draw(st.integers(-9, 9))
+            boxes[j] = [float(lo), float(lo + draw(st.integers(1, 7)))]
+            prec[j] = None
+            ptype.append("integer")
+        else:
+            ptype.append(None)
+    return {"boxes": boxes, "prec": prec, "ptype": ptype, "designs": designs, "mode": mode, "workers": draw(st.integers(2, 3)),
             "store": draw(st.booleans()), "seed": draw(st.integers(0, 2 ** 31))}
 
 
@@ -111,6 +122,9 @@ def run_plan(case, clause, other=None):
     for p_, q_ in zip(ps, case.get("prec") or []):
         if q_:
             p_["precision"] = q_
+    for p_, t_ in zip(ps, case.get("ptype") or []):
+        if t_:
+            p_["parameter_type"] = t_
     prob = make_problem(ps, [{"name": "f0", "criteria": "minimize"}, {"name": "f1", "criteria": "maximize"}], ev)
     db = None
     seed_all(case["seed"])
@@ -126,6 +140,7 @@ def run_plan(case, clause, other=None):
         for tag, d in enumerate(designs):
             v = [b[0] + t * (b[1] - b[0]) for b, t in zip(boxes, d["t"])]
             v = [min(b[1], max(b[0], x)) for x, b in zip(v, boxes)]
+            v = [float(round(x)) if t_ == "integer" else x for x, t_ in zip(v, case.get("ptype") or [None] * len(v))]
             ind = Individual(v)
             ind.custom["tag"] = tag
             inds.append(ind)
@@ -178,9 +193,11 @@ def run_plan(case, clause, other=None):
         dispose(prob)
 
 
-def _in_box(v, boxes, prec=None):
+def _in_box(v, boxes, prec=None, ptype=None):
     for j, (x, (lb, ub)) in enumerate(zip(v, boxes)):
         t = 1e-12 + 4 * ulp(max(abs(lb), abs(ub)))
+        if ptype and ptype[j] == "integer" and x != int(x):
+            return False
         if prec and prec[j]:
             t = prec[j] / 2 + 4 * ulp(max(abs(lb), abs(ub), prec[j]))
         if not (lb - t <= x <= ub + t):
@@ -221,11 +238,12 @@ def check_plan(case, clause="transient"):
         if c and c[0][0] != [float(x) for x in r["start"][i]]:
             raise Violation(clause, "first-attempt-vector", "first call used %r, design was %r" % (c[0][0], r["start"][i]))
         for (vec, out) in c:
-            if not _in_box(vec, boxes, case.get("prec")):
+            if not _in_box(vec, boxes, case.get("prec"), case.get("ptype")):
                 raise Violation(clause, "replacement-out-of-box", "attempt vector %r outside %r" % (vec, boxes))
         for a, b_ in zip(c, c[1:]):
-            # (with a declared coarse precision a fresh sample may legitimately coincide with the failed one)
-            if a[0] == b_[0] and not any(case.get("prec") or []):
+            # (with a declared coarse precision or an integer parameter a fresh sample may legitimately coincide with the
+            #  failed one)
+            if a[0] == b_[0] and not any(case.get("prec") or []) and not any(case.get("ptype") or []):
                 raise Violation(clause, "not-resampled", "the retry used the same vector %r again" % (a[0],))
         exp_failed.extend(vec for vec, out in c if out == "fail")
         if d["k"] < 5:
